@@ -259,15 +259,27 @@ func (w *World) checkRedelegationQueries(u, d int64) {
 func (w *World) checkDelegationQueries() {
 	plugin := bindings.NewAllianceQueryPlugin(&w.App.AllianceKeeper)
 	for _, p := range w.positions() {
-		bal := w.balanceOf(p)
+		bal, panicked := w.balanceOfP(p)
+		if panicked != "" {
+			// the query handler panics (a position worth a negative amount: sdk.NewCoin refuses it);
+			// the model answers -1 exactly when its value of the position is negative
+			w.emitQuery(6, []int64{p.u, p.v, p.d}, []string{"-1"})
+			w.monitor("C20", "delegation-query-panics-"+strings.Join(strings.FieldsFunc(panicked, func(r rune) bool {
+				return !(r >= 'a' && r <= 'z' || r >= 'A' && r <= 'Z')
+			}), "-"))
+			continue
+		}
 		w.emitQuery(6, []int64{p.u, p.v, p.d}, []string{intStr(bal)})
 		// binding reports the same value
-		if raw, err := plugin.GetDelegation(w.Ctx, denomName(p.d), w.AccAddr(p.u).String(), w.ValAddr(p.v).String()); err == nil {
-			var r bindingtypes.DelegationResponse
-			if json.Unmarshal(raw, &r) == nil && r.Amount != bal.String() {
-				w.monitor("C20", "binding-delegation-amount-differs-from-grpc")
+		func() {
+			defer func() { _ = recover() }()
+			if raw, err := plugin.GetDelegation(w.Ctx, denomName(p.d), w.AccAddr(p.u).String(), w.ValAddr(p.v).String()); err == nil {
+				var r bindingtypes.DelegationResponse
+				if json.Unmarshal(raw, &r) == nil && r.Amount != bal.String() {
+					w.monitor("C20", "binding-delegation-amount-differs-from-grpc")
+				}
 			}
-		}
+		}()
 		if bal.IsPositive() {
 			// the reported balance can be undelegated, one unit more cannot
 			c1, o1, _ := w.runBranch(func(ctx sdk.Context) error {
